@@ -266,6 +266,12 @@ def run_case(case):
                 res = {'status': 'ok', 'value': None}
             elif kind == 'get_value':
                 res = {'status': 'ok', 'value': canon_val(spec.get_value(call[1]))}
+            elif kind == 'get_node':
+                # get_value(printed name) of the node reached from the call[1]-th assertion through .children[i] for i in call[2]
+                node = spec.ast.specs[call[1]]
+                for i in call[2]:
+                    node = node.children[i]
+                res = {'status': 'ok', 'value': canon_val(spec.get_value(node.name))}
             elif kind == 'counter':
                 res = {'status': 'ok', 'value': canon_val(spec.sampling_violation_counter)}
             elif kind == 'print':
@@ -381,6 +387,11 @@ def do_call(spec, case, call):
         return {'status': 'ok', 'value': None}
     if kind == 'get_value':
         return {'status': 'ok', 'value': canon_val(spec.get_value(call[1]))}
+    if kind == 'get_node':
+        node = spec.ast.specs[call[1]]
+        for i in call[2]:
+            node = node.children[i]
+        return {'status': 'ok', 'value': canon_val(spec.get_value(node.name))}
     if kind == 'counter':
         return {'status': 'ok', 'value': canon_val(spec.sampling_violation_counter)}
     if kind == 'print':
